@@ -34,8 +34,9 @@ enum Var {
     PkIdx,
     Auto,
     Big,
+    Fixed,
 }
-const ALL_VARS: [Var; 5] = [Var::NoPk, Var::Pk, Var::PkIdx, Var::Auto, Var::Big];
+const ALL_VARS: [Var; 6] = [Var::NoPk, Var::Pk, Var::Fixed, Var::PkIdx, Var::Auto, Var::Big];
 impl Var {
     fn name(self) -> &'static str {
         match self {
@@ -44,6 +45,7 @@ impl Var {
             Var::PkIdx => "pkidx",
             Var::Auto => "auto",
             Var::Big => "big",
+            Var::Fixed => "fixed",
         }
     }
     fn parse(s: &str) -> Option<Var> {
@@ -63,6 +65,8 @@ impl Var {
             Var::Pk | Var::Big => vec!["CREATE TABLE t(id INT PRIMARY KEY, a INT, s TEXT)".into()],
             Var::PkIdx => vec!["CREATE TABLE t(id INT PRIMARY KEY, a INT, s TEXT)".into(), "CREATE INDEX t_a ON t(a)".into()],
             Var::Auto => vec!["CREATE TABLE t(id INT PRIMARY KEY AUTO_INCREMENT, a INT, s TEXT)".into()],
+            // fixed-width columns only (no variable-length value anywhere in the row)
+            Var::Fixed => vec!["CREATE TABLE t(id INT PRIMARY KEY, a INT, s INT)".into()],
         }
     }
 }
@@ -428,12 +432,21 @@ fn same(a: &Res, b: &Res) -> bool {
     }
 }
 
+/// SQL literal for column `s`: quoted text, or an integer for the fixed-width variant
+fn s_lit(var: Var, step: usize, tag: char) -> String {
+    if var == Var::Fixed {
+        format!("{}", step * 10 + (tag as usize % 7))
+    } else {
+        format!("'{}'", text_val(var, step, tag))
+    }
+}
+
 fn op_exec(t: &TestDb, var: Var, op: Op, step: usize) -> Vec<Res> {
-    let ins = |k: u8, tag: char| format!("({k},{k},'{}')", text_val(var, step, tag));
+    let ins = |k: u8, tag: char| format!("({k},{k},{})", s_lit(var, step, tag));
     match op {
         Op::Ins(k) => vec![t.exec(&format!("INSERT INTO t (id,a,s) VALUES {}", ins(k, 'i')))],
         Op::Ins2(a, b) => vec![t.exec(&format!("INSERT INTO t (id,a,s) VALUES {},{}", ins(a, 'i'), ins(b, 'j')))],
-        Op::Upd(k) => vec![t.exec(&format!("UPDATE t SET a = {}, s = '{}' WHERE id = {k}", k % 3 + 1, text_val(var, step, 'u')))],
+        Op::Upd(k) => vec![t.exec(&format!("UPDATE t SET a = {}, s = {} WHERE id = {k}", k % 3 + 1, s_lit(var, step, 'u')))],
         Op::UpdA(k) => vec![t.exec(&format!("UPDATE t SET a = {} WHERE id = {k}", k % 3 + 4 + (step as u8 % 2)))],
         Op::UpdAll => vec![t.exec("UPDATE t SET a = a + 1")],
         Op::Del(k) => vec![t.exec(&format!("DELETE FROM t WHERE id = {k}"))],
@@ -441,7 +454,7 @@ fn op_exec(t: &TestDb, var: Var, op: Op, step: usize) -> Vec<Res> {
         Op::Trunc => vec![t.exec("TRUNCATE TABLE t")],
         Op::CIdx => vec![t.exec("CREATE INDEX t_a2 ON t(a)")],
         Op::AddCol => vec![t.exec("ALTER TABLE t ADD COLUMN z INT")],
-        Op::InsA => vec![t.exec(&format!("INSERT INTO t (a,s) VALUES (1,'{}')", text_val(var, step, 'n')))],
+        Op::InsA => vec![t.exec(&format!("INSERT INTO t (a,s) VALUES (1,{})", s_lit(var, step, 'n')))],
         Op::TxnIns(k) => vec![t.exec("BEGIN"), t.exec(&format!("INSERT INTO t (id,a,s) VALUES {}", ins(k, 'i'))), t.exec("COMMIT")],
         Op::TxnUpdAll => vec![t.exec("BEGIN"), t.exec("UPDATE t SET a = a + 1"), t.exec("COMMIT")],
         Op::CreateU => vec![t.exec("CREATE TABLE u(id INT PRIMARY KEY AUTO_INCREMENT, a INT)")],
@@ -459,7 +472,7 @@ fn op_exec(t: &TestDb, var: Var, op: Op, step: usize) -> Vec<Res> {
                         let r = vcore::catch(|| {
                             stmt.bind(OwnedValue::Int(*k as i64))
                                 .bind(OwnedValue::Int(*k as i64))
-                                .bind(OwnedValue::Text(text_val(var, step, *tag)))
+                                .bind(if var == Var::Fixed { OwnedValue::Int((step * 10 + (*tag as usize % 7)) as i64) } else { OwnedValue::Text(text_val(var, step, *tag)) })
                                 .execute(db)
                                 .map_err(|e| format!("{e:#}"))
                         });
@@ -1876,6 +1889,8 @@ impl Check for C04 {
             let nps = [Maint::ReopenNoPragma, Maint::CloseReopenNoPragma];
             rep.bound("wal_left_off", json!({"session1_alphabet": a1.iter().map(|o| o.name()).collect::<Vec<_>>(), "session1_max_ops": 2, "session2_alphabet": a2.iter().map(|o| o.name()).collect::<Vec<_>>(), "session2_ops": if q { "1" } else { "1..2" }, "reopen_kinds": ["reopen_nopragma", "close_reopen_nopragma"], "variants": ALL_VARS.iter().map(|v| v.name()).collect::<Vec<_>>()}));
             let mut eng = Engine::new(ctx);
+            // the side passes get a fixed share of the wall cap each, so that a slow machine cannot starve the history passes
+            let wlo_deadline = { let now = std::time::Instant::now(); now + ctx.deadline.saturating_duration_since(now) / 5 };
             let mut idx = 3_000_000u64;
             'outer: for &var in &ALL_VARS {
                 for s1 in &s1s {
@@ -1883,8 +1898,8 @@ impl Check for C04 {
                     if !ctx.mine(idx) {
                         continue;
                     }
-                    if ctx.expired() {
-                        rep.capped("deadline in pass wal-left-off");
+                    if ctx.expired() || std::time::Instant::now() >= wlo_deadline {
+                        rep.capped("deadline in pass wal-left-off (its share is 20% of the wall cap)");
                         break 'outer;
                     }
                     for s2 in &s2s {
@@ -1923,12 +1938,13 @@ impl Check for C04 {
             let list = roundtrip::schemas(k);
             rep.bound("catalog_roundtrip", json!({"constraint_kinds": roundtrip::all_feats().iter().map(|f| f.name()).collect::<Vec<_>>(), "max_kinds_per_schema": k, "schemas": list.len(), "maintenance": ["reopen", "close_reopen"], "wal": ["off", "on"]}));
             let mut rt = roundtrip::RtRunner::new(ctx);
+            let rt_deadline = { let now = std::time::Instant::now(); now + ctx.deadline.saturating_duration_since(now) / 5 };
             for (i, feats) in list.iter().enumerate() {
                 if !ctx.mine(2_000_000 + i as u64) {
                     continue;
                 }
-                if ctx.expired() {
-                    rep.capped("deadline in pass catalog-roundtrip");
+                if ctx.expired() || std::time::Instant::now() >= rt_deadline {
+                    rep.capped("deadline in pass catalog-roundtrip (its share is 20% of the remaining wall cap)");
                     break;
                 }
                 roundtrip::check_schema(&mut rt, rep, feats);
